@@ -203,13 +203,29 @@ def fam_restart(seed, i):
     kinds = {c: rng.choice(["addr", "addr", "sender", "caller", "waddr"]) for c in names}
     if cfg["owning"]:
         kinds[rng.choice(names)] = "owning"
-    main, handles = setup_main(rng, cfg, kinds, True)
+    # (sometimes nobody keeps a handle in the end: a restart that was accepted is still carried out, C07 / C05)
+    drop_all = rng.random() < 0.3
+    main, handles = setup_main(rng, cfg, kinds, not drop_all)
     sc["clients"]["main"] = main
-    w = {"send": 5, "call": 6, "restart": 3, "yield": 3, "clone": 0.5, "stop": 0.7, "upgrade": 1, "join": 1, "await": 0.5, "stopped": 0.5}
-    scripts = [[], [Y], [eff("ctx_restart")], [Y, eff("ctx_restart")], []]
+    w = {"send": 5, "call": 6, "restart": 3, "yield": 3, "clone": 0.5, "stop": 0.7, "upgrade": 1, "join": 1, "await": 0.5, "stopped": 0.5, "claim": 4}
+    base_scripts = [[], [Y], [eff("ctx_restart")], [Y, eff("ctx_restart")], []]
     cnt = [0]
+    wn = [0]
     for c in names:
-        sc["clients"][c] = Prog(rng, c, handles.get(c, {}), w, scripts, cnt).run(rng.randint(2, 8))
+        p = Prog(rng, c, handles.get(c, {}), w, None, cnt)
+
+        def scripts(p=p):
+            if rng.random() < 0.25:
+                # a weak handle obtained from the context of one incarnation is used across restarts
+                wn[0] += 1
+                kind = rng.choice(["ctx_weak_sender", "ctx_weak_sender", "ctx_weak_caller", "ctx_weak_address"])
+                name = f"w{wn[0]}"
+                p.claimable.append((name, {"ctx_weak_address": "waddr", "ctx_weak_sender": "wsender", "ctx_weak_caller": "wcaller"}[kind]))
+                return [eff(kind, 0, name)]
+            return rng.choice(base_scripts)
+
+        p.scripts = scripts
+        sc["clients"][c] = p.run(rng.randint(2, 8), drop_all=drop_all)
     return sc
 
 
